@@ -74,3 +74,9 @@ pub use swimos_introspection::IntrospectionConfig;
 use swimos_utilities::byte_channel::{ByteReader, ByteWriter};
 
 type Io = (ByteWriter, ByteReader);
+
+/// Re-exports used by the external verification harness (feature `verif-hooks`, off by default).
+#[cfg(feature = "verif-hooks")]
+pub mod verif_hooks {
+    pub use crate::in_memory_store::{InMemoryNodePersistence, InMemoryPlanePersistence};
+}
